@@ -141,6 +141,7 @@ impl KeyEnc for &String { open spec fn key_bytes(self) -> Seq<u8> { enc_str(self
 impl KeyEnc for String { open spec fn key_bytes(self) -> Seq<u8> { enc_str(self@) } }
 impl KeyEnc for &[u8] { open spec fn key_bytes(self) -> Seq<u8> { self@ } }
 impl KeyEnc for u64 { open spec fn key_bytes(self) -> Seq<u8> { enc_u64(self) } }
+impl KeyEnc for u32 { open spec fn key_bytes(self) -> Seq<u8> { enc_u64(self as u64) } }
 impl<A: KeyEnc, B: KeyEnc> KeyEnc for (A, B) { open spec fn key_bytes(self) -> Seq<u8> { enc_pair(self.0.key_bytes(), self.1.key_bytes()) } }
 impl<A: KeyEnc, B: KeyEnc, C: KeyEnc> KeyEnc for (A, B, C) { open spec fn key_bytes(self) -> Seq<u8> { enc_pair(enc_pair(self.0.key_bytes(), self.1.key_bytes()), self.2.key_bytes()) } }
 
